@@ -546,6 +546,8 @@ type dentry struct {
 	status  tinkpb.KeyStatusType
 	primary bool
 	legacy  bool // routes.go: stored under the legacy type URL (raw key deriver from a registry.KeyManager)
+	// legacyMode: which answer the key manager's deriver gives (routes.go legacyURLs)
+	legacyMode int
 }
 
 func (e dentry) String() string {
@@ -1178,6 +1180,7 @@ func main() {
 			{Name: "proto-1key", Body: protoOneKeySection, Bound: -1},
 			{Name: "proto-3keys", Body: protoThreeKeySection, Bound: -1},
 			{Name: "legacy-wrapper", Body: legacySection, Bound: -1},
+			{Name: "hkdf-output-limit", Body: hkdfLimitSection, Bound: -1},
 			{Name: "underivable-routes", Body: underivableSection, Bound: -1},
 			{Name: "prefix-conflict", Body: prefixConflictSection, Bound: -1},
 			{Name: "other-prf", Body: otherPRFSection, Bound: -1},
